@@ -176,7 +176,7 @@ fn replay_chooser(sch: Vec<usize>) -> impl FnMut(usize, &[usize], Option<usize>)
 /// formed (in one piece) and must have been the current value at some instant of the load:
 /// its number k satisfies g0 - 1 <= k <= g1 - 1 for the write_cell values g0 / g1 read before /
 /// after the load; per reader k never decreases.
-fn stress<const N: usize>(millis: u64, nreaders: usize) {
+fn stress<const N: usize>(millis: u64, nreaders: usize, churn: bool) {
     use std::sync::atomic::{AtomicBool, AtomicU64, Ordering};
     let a: &'static UnrestrictedAtomic<V<N>> = Box::leak(Box::new(UnrestrictedAtomic::new(mk::<N>(0))));
     let stop: &'static AtomicBool = Box::leak(Box::new(AtomicBool::new(false)));
@@ -209,16 +209,23 @@ fn stress<const N: usize>(millis: u64, nreaders: usize) {
             loads.fetch_add(n, Ordering::Relaxed); overlapped.fetch_add(ov, Ordering::Relaxed);
         }));
     }
-    let p = a.acquire_producer().unwrap();
+    // churn: the producer handle is acquired for every single update and dropped afterwards
+    // (the usage of the blackboard documentation examples: writer.entry(..)?.update_with_copy(v))
+    let mut p = Some(a.acquire_producer().unwrap());
     let t0 = std::time::Instant::now();
     let mut k: u64 = 0;
     while t0.elapsed().as_millis() < millis as u128 {
         for _ in 0..64 {
             k += 1;
             let v = mk::<N>((k % 251) as u8);
-            if k % 2 == 0 { p.store(v); } else { unsafe { let ptr = p.__internal_get_ptr_to_write_cell(); ptr.write(v); p.__internal_update_write_cell(); } }
+            if churn && p.is_none() { p = Some(a.acquire_producer().unwrap()); }
+            { let p = p.as_ref().unwrap();
+              if k % 2 == 0 { p.store(v); } else { unsafe { let ptr = p.__internal_get_ptr_to_write_cell(); ptr.write(v); p.__internal_update_write_cell(); } } }
+            if churn { p = None; }
         }
+        if churn { std::thread::yield_now(); }
     }
+    drop(p);
     stop.store(true, Ordering::Relaxed);
     for h in hs { let _ = h.join(); }
     println!("STRESS size={} readers={} stores={} loads={} loads_overlapping_a_store={} torn={} stale_or_future={} went_back={}",
@@ -322,7 +329,9 @@ fn main() {
         "stress" => {
             let n: usize = a[2].parse().unwrap(); let ms: u64 = a[3].parse().unwrap(); let r: usize = a[4].parse().unwrap();
             let _ = out.flush();
-            match n { 1 => stress::<1>(ms, r), 2 => stress::<2>(ms, r), 3 => stress::<3>(ms, r), 9 => stress::<9>(ms, r), 65 => stress::<65>(ms, r), 129 => stress::<129>(ms, r), _ => panic!("size") }
+            let c = a.get(5).map(|s| s == "churn").unwrap_or(false);
+            match n { 1 => stress::<1>(ms, r, c), 2 => stress::<2>(ms, r, c), 3 => stress::<3>(ms, r, c), 9 => stress::<9>(ms, r, c), 65 => stress::<65>(ms, r, c), 129 => stress::<129>(ms, r, c),
+                      4096 => stress::<4096>(ms, r, c), 65536 => stress::<65536>(ms, r, c), _ => panic!("size") }
         }
         _ => panic!("mode"),
     }
